@@ -5,6 +5,7 @@ VARIABLES hist, done
 MaxDefs == atoi(IOEnv.GEN_MAXDEFS)
 MaxStmts == atoi(IOEnv.GEN_MAXSTMTS)
 MaxSecs == atoi(IOEnv.GEN_MAXSECS)
+KbOnly == "GEN_KBONLY" \in DOMAIN IOEnv /\ IOEnv.GEN_KBONLY = "1"        \* only key-blob definitions and the statements that use them (exhaustive lane)
 Lit(n) == [k |-> "lit", v |-> n]
 Ref(n) == [k |-> "ref", n |-> n]
 Bin(o, a, b) == [k |-> "bin", op |-> o, l |-> a, r |-> b]
@@ -12,16 +13,24 @@ Names == {"ca", "cb"}
 ExprMenu == {Lit(v) : v \in {0, 4, 4096, 8192}} \cup {Ref(n) : n \in DOMAIN env} \cup {Bin("+", Ref(n), Lit(4)) : n \in DOMAIN env}
             \cup {Bin("*", Lit(4), Lit(1024)), Bin("-", Lit(8192), Lit(4096)), Bin("+", Lit(4096), Bin("*", Lit(2), Lit(8)))}
 Iota(n) == [i \in 1..n |-> i]
-NDefs == Cardinality({i \in 1..Len(hist) : hist[i].ev \in {"DefConst", "DefOption", "DefOptionStr"}})
+NDefs == Cardinality({i \in 1..Len(hist) : hist[i].ev \in {"DefConst", "DefOption", "DefOptionStr", "DefKeyblob"}})
 NStmts == IF secs = <<>> THEN 0 ELSE Len(secs[Len(secs)].cmds)
 Log(x) == hist' = Append(hist, x) /\ UNCHANGED done
 \* a name is defined once: what a second definition of the same name means is not settled by the documentation
 Defined == DOMAIN env \cup {sopts[i][1] : i \in 1..Len(sopts)}
-GDefConst == NDefs < MaxDefs /\ \E n \in Names \ Defined : \E e \in ExprMenu : DefConst(n, e) /\ Log([ev |-> "DefConst", n |-> n, e |-> e])
-GDefOption == NDefs < MaxDefs /\ \E p \in {<<"flags", Lit(8)>>, <<"flags", Lit(32776)>>, <<"buildNumber", Lit(7)>>, <<"buildNumber", Bin("+", Lit(1), Lit(2))>>, <<"oa", Lit(4096)>>} :
+GDefConst == ~KbOnly /\ NDefs < MaxDefs /\ \E n \in Names \ Defined : \E e \in ExprMenu : DefConst(n, e) /\ Log([ev |-> "DefConst", n |-> n, e |-> e])
+GDefOption == ~KbOnly /\ NDefs < MaxDefs /\ \E p \in {<<"flags", Lit(8)>>, <<"flags", Lit(32776)>>, <<"buildNumber", Lit(7)>>, <<"buildNumber", Bin("+", Lit(1), Lit(2))>>, <<"oa", Lit(4096)>>} :
                  p[1] \notin Defined /\ DefOption(p[1], p[2]) /\ Log([ev |-> "DefOption", n |-> p[1], e |-> p[2]])
-GDefOptionStr == NDefs < MaxDefs /\ \E p \in {<<"productVersion", "1.2.3">>, <<"componentVersion", "4.5.6">>, <<"productVersion", "999.999.999">>} :
+GDefOptionStr == ~KbOnly /\ NDefs < MaxDefs /\ \E p \in {<<"productVersion", "1.2.3">>, <<"componentVersion", "4.5.6">>, <<"productVersion", "999.999.999">>} :
                  p[1] \notin Defined /\ DefOptionStr(p[1], p[2]) /\ Log([ev |-> "DefOptionStr", n |-> p[1], v |-> p[2]])
+\* key blobs: ids need not follow the order of definition; every blob has its own range, key and counter (hi = ...3FB: VLD and ADE set, read-only flag clear)
+KbMenu == << [lo |-> 4096, hi |-> 6139, key |-> "000102030405060708090A0B0C0D0E0F", ctr |-> "0123456789ABCDEF"],
+             [lo |-> 8192, hi |-> 10235, key |-> "A0A1A2A3A4A5A6A7A8A9AAABACADAEAF", ctr |-> "1111111122222222"],
+             [lo |-> 12288, hi |-> 14331, key |-> "F0E0D0C0B0A090807060504030201000", ctr |-> "FEDCBA9876543210"] >>
+GDefKeyblob == NDefs < MaxDefs /\ Len(kbs) < 3 /\ \E id \in {0, 1, 5} \ KbIds : \E k \in 1..Len(KbMenu) :
+                 /\ \A i \in 1..Len(kbs) : kbs[i].lo # KbMenu[k].lo
+                 /\ DefKeyblob(id, KbMenu[k].lo, KbMenu[k].hi, KbMenu[k].key, KbMenu[k].ctr)
+                 /\ Log([ev |-> "DefKeyblob", id |-> id, lo |-> KbMenu[k].lo, hi |-> KbMenu[k].hi, key |-> KbMenu[k].key, ctr |-> KbMenu[k].ctr])
 GBeginSection == Len(secs) < MaxSecs /\ (secs = <<>> \/ NStmts > 0) /\ \E id \in {0, 1, 5} : BeginSection(id) /\ Log([ev |-> "BeginSection", id |-> id])
 Blobs == {<<170, 187, 204, 221>>, <<1, 2, 3, 4, 5, 6, 7, 8>>, <<18, 52>>}
 StmtMenu ==
@@ -39,12 +48,14 @@ StmtMenu ==
 \cup {[s |-> "reset"]}
 \cup {[s |-> "version_check", nsec |-> t, ver |-> a] : t \in {0, 1}, a \in ExprMenu}
 \cup {[s |-> k, addr |-> a, mem |-> 9] : k \in {"keystore_to_nv", "keystore_from_nv"}, a \in ExprMenu}
-GStmt == phase = "section" /\ NStmts < MaxStmts /\ \E st \in StmtMenu : Stmt(st) /\ Log([ev |-> "Stmt", st |-> st])
-GRefuse == phase = "section" /\ \E kind \in Unsupported : Refuse(kind) /\ Log([ev |-> "Refuse", kind |-> kind])
+\cup {[s |-> "encrypt", kb |-> kbs[i].id, addr |-> Lit(kbs[i].lo + o), data |-> d] : i \in 1..Len(kbs), o \in {0, 512}, d \in {Iota(16), Iota(5)}}
+\cup {[s |-> "keywrap", kb |-> kbs[i].id, addr |-> a, kek |-> "0102030405060708090A0B0C0D0E0F00"] : i \in 1..Len(kbs), a \in {Lit(0), Lit(8192)}}
+GStmt == phase = "section" /\ NStmts < MaxStmts /\ \E st \in StmtMenu : (KbOnly => st.s \in {"encrypt", "keywrap"}) /\ Stmt(st) /\ Log([ev |-> "Stmt", st |-> st])
+GRefuse == ~KbOnly /\ phase = "section" /\ \E kind \in Unsupported : Refuse(kind) /\ Log([ev |-> "Refuse", kind |-> kind])
 GInit == PInit /\ hist = <<>> /\ done = FALSE
 Finish == /\ ~done /\ (phase = "refused" \/ (phase = "section" /\ NStmts > 0))
           /\ done' = TRUE /\ PrintT(ToJson(hist)) /\ UNCHANGED <<pvars, hist>>
-GNext == ~done /\ (GDefConst \/ GDefOption \/ GDefOptionStr \/ GBeginSection \/ GStmt \/ GRefuse \/ Finish)
+GNext == ~done /\ (GDefConst \/ GDefOption \/ GDefOptionStr \/ GDefKeyblob \/ GBeginSection \/ GStmt \/ GRefuse \/ Finish)
 \* lemma: every command the spec produces is well formed
 WellFormed == \A i \in 1..Len(secs) : \A j \in 1..Len(secs[i].cmds) : secs[i].cmds[j].a >= 0 /\ secs[i].cmds[j].n >= 0
 =============================================================================
